@@ -141,6 +141,8 @@ pub enum PayOutcome {
     Pending,
     Failed { warning: bool },
     RpcError(i32),
+    /// the connection broke: no JSON-RPC answer at all (the command has ended, contract A1)
+    Transport,
 }
 
 impl PayOutcome {
@@ -152,6 +154,7 @@ impl PayOutcome {
             PayOutcome::Failed { warning: false } => "failed".into(),
             PayOutcome::Failed { warning: true } => "failed+warn".into(),
             PayOutcome::RpcError(c) => format!("rpcerror{}", c),
+            PayOutcome::Transport => "transport-error".into(),
         }
     }
 }
@@ -448,6 +451,7 @@ impl Sim {
         }
         // A JSON-RPC error ends the command whatever the parts are doing.
         v.push(PayOutcome::RpcError(210));
+        v.push(PayOutcome::Transport);
         v
     }
 
@@ -483,6 +487,7 @@ impl Sim {
                 PayOutcome::Pending => Ok(mk("pending", ZERO_PREIMAGE, false)),
                 PayOutcome::Failed { warning } => Ok(mk("failed", ZERO_PREIMAGE, *warning)),
                 PayOutcome::RpcError(code) => Err(SimErr::rpc(*code, "Ran out of routes to try")),
+                PayOutcome::Transport => Err(SimErr::Transport("connection reset by peer".into())),
             }
         };
         self.respond(rpc, res.clone());
